@@ -22,7 +22,7 @@ func (m *supplyMonitor) check(r *kernel.Run, where string) {
 	m.evals++
 	sup := r.Chain.Supply()
 	sum := r.Chain.AllBalances().Sum()
-	if !sup.IsEqual(sum) {
+	if !coinsEq(sup, sum) {
 		r.Violate(m.Prop, "supply-vs-balances", "supply-differs-from-balances", "%s: total supply %s but balances add up to %s (difference %s)", where, sup, sum, diffCoins(sup, sum))
 	}
 }
